@@ -77,8 +77,18 @@ def fbi_post(c, v0, v1, r):
         return d
     if v0.wngrid_width is not None:
         # every stored (centre, width) pair is an input pair, and every input pair is stored
-        d['pairs_kept'] = c.Forall(0, n, lambda i: c.Exists(0, n, lambda j: c.And(G[i] == v0.wngrid[j], Wd[i] == v0.wngrid_width[j])))
-        d['pairs_all'] = c.Forall(0, n, lambda j: c.Exists(0, n, lambda i: c.And(G[i] == v0.wngrid[j], Wd[i] == v0.wngrid_width[j])))
+        pf, qf = c.last_perm        # witnesses: stored position i holds input pair p(i); input pair j is stored at q(j)
+        pair = lambda i, j: c.And(G[i] == v0.wngrid[j], Wd[i] == v0.wngrid_width[j])
+
+        def kept(i):
+            at = c.And(0 <= pf(i), pf(i) < n, pair(i, pf(i)))
+            return c.hint(c.Exists(0, n, lambda j: pair(i, j)), at, final_uses=1)
+
+        def all_(j):
+            at = c.And(0 <= qf(j), qf(j) < n, pair(qf(j), j))
+            return c.hint(c.Exists(0, n, lambda i: pair(i, j)), at, final_uses=1)
+        d['pairs_kept'] = c.ForallH(0, n, kept)
+        d['pairs_all'] = c.ForallH(0, n, all_)
     else:
         d['arrangement'] = c.Forall(0, n, lambda i: c.Exists(0, n, lambda j: G[i] == v0.wngrid[j]))
     return d
